@@ -33,3 +33,18 @@ Print Assumptions WFx_means.
 Theorem wfx_b_sound : forall s, ConserveRun.wfx_b s = true -> Conserve.WFx nil s.
 Proof. exact ConserveRun.wfx_b_sound. Qed.
 Print Assumptions wfx_b_sound.
+
+(* ---- T2, last clause of C01: arrival at the exit is permanent ---- *)
+From CiwV.Inv Require Import ExitGrows.
+
+(* one event only ever appends to the exit list and never lowers the number of customers created *)
+Theorem event_step_grows : forall cf s u s', Engine.event_step cf s = Ok (u, s') ->
+  (exists t, exit_ids s' = exit_ids s ++ t) /\ (a_created (arr s) <= a_created (arr s'))%Z.
+Proof. exact ExitGrows.event_step_grows. Qed.
+Print Assumptions event_step_grows.
+
+(* after any number of events a customer that was at the exit is still there and is in no service node *)
+Theorem exit_is_permanent : forall cf ds s s' x, Conserve.WFx nil s -> Codec.run_many cf s ds = Ok s' -> In x (exit_ids s) ->
+  In x (exit_ids s') /\ forall nd, In nd (nodes s') -> ~ In x (Engine.all_individuals nd).
+Proof. exact ExitGrows.exit_is_permanent. Qed.
+Print Assumptions exit_is_permanent.
